@@ -481,7 +481,7 @@ fn rate01() -> impl Strategy<Value = f64> {
 }
 
 pub fn strategy(max_len: usize) -> BoxedStrategy<Case> {
-    let script = || prop::collection::vec(any::<u64>(), 0..24);
+    let script = || crate::rngs::script_strategy(24);
     let flip = (
         prop::sample::select(vec![FlipGenome::VecBool, FlipGenome::Bitstring, FlipGenome::VecTag, FlipGenome::VectorTag]),
         prop::collection::vec(any::<bool>(), 0..=max_len),
